@@ -47,6 +47,13 @@ class C03(Prop):
                                                      [{"kind": "any", "paths": ["$.missing"]}]))
                     cs.append(c)
                 prog2.append((t, h, cs))
+            if r.chance(1, 8):
+                # bulky values: a slot's body reaches past a 4096-byte reader window, so rewriting it (or a neighbour) crosses windows
+                def bulk(c):
+                    if c.get("api") != "snap" or "values" not in c:
+                        return c
+                    return dict(c, values=[hx(b"\n".join(b"row %03d of the report: value value value value" % k_ for k_ in range(r.range(60, 220))))])
+                prog2 = [(t, h, [bulk(c) for c in cs]) for t, h, cs in prog2]
             execs = r.weighted([(1, 2), (2, 2), (3, 1)])
             upd = r.choice(["unset", "true"])
             ops = []
